@@ -22,9 +22,9 @@
      never read by their `json` and are dropped.
    * floats are not modelled: boost / fuzziness / slop carry the exact decimal float() is applied to.
    * context["parents"] is maintained by the code but never read by the builder: not modelled.
-   * class-level constants of luqum.elasticsearch.tree are HARD-CODED below (marked E-CONST);
-     gen/translate.py should emit them (values and the fact that they are tuples / str). *)
-Require Import Base Decimal Tree GenTree GenVisitors GenChars Visitor Json EsSpecs EsCheck.
+   * class-level constants of luqum.elasticsearch.tree come from gen/GenEs.v (generated).  The builder's
+     MUST / SHOULD values are used by the harness when it maps default_operator to `defop`. *)
+Require Import Base Decimal Tree GenTree GenVisitors GenChars GenEs Visitor Json EsSpecs EsCheck.
 
 (* ---------------------------------------------------------------- string constants *)
 Definition k_term : str := [116;101;114;109]%N.   (* "term" *)
@@ -145,21 +145,39 @@ Definition eopk_eqb (a b : eopk) : bool :=
   | _, _ => false
   end.
 
-(* E-CONST AbstractEItem._KEYS_TO_ADD = ('boost', 'fuzziness', '_name')  (a tuple) *)
-Definition keys_to_add : list str := [k_boost; k_fuzziness; k_name].
-(* E-CONST EWord.ADDITIONAL_KEYS_TO_ADD = ('q',), EPhrase.ADDITIONAL_KEYS_TO_ADD = ('q',),
-   ERange inherits AbstractEItem.ADDITIONAL_KEYS_TO_ADD = ()  (tuples: `+=` on an instance rebinds
-   an instance attribute, the class value is never mutated) *)
+(* class-level constants of luqum.elasticsearch.tree: GENERATED (gen/GenEs.v).  That they are tuples /
+   str (so that `+=` on an instance rebinds an instance attribute and never mutates the class value) is
+   the generated fact gen_e_consts_immutable, a tie obligation of C06. *)
+(* <E class>._KEYS_TO_ADD *)
+Definition class_keys (k : lkind) : list str :=
+  match k with
+  | LWord => gen_EWord_keys_to_add
+  | LPhrase => gen_EPhrase_keys_to_add
+  | LRange => gen_ERange_keys_to_add
+  end.
+(* <E class>.ADDITIONAL_KEYS_TO_ADD *)
 Definition class_addkeys (k : lkind) : list str :=
-  match k with LWord | LPhrase => [k_q] | LRange => [] end.
-(* E-CONST AbstractEItem.__init__: self.zero_terms_query = 'none' (instance attribute, a str) *)
-Definition ztq_default : str := k_none.
-(* E-CONST EMust.zero_terms_query = 'all', EMustNot.zero_terms_query = 'none';
-   operation = 'must' / 'should' / 'must_not' *)
+  match k with
+  | LWord => gen_EWord_additional_keys_to_add
+  | LPhrase => gen_EPhrase_additional_keys_to_add
+  | LRange => gen_ERange_additional_keys_to_add
+  end.
+(* AbstractEItem.__init__: self.zero_terms_query = 'none' *)
+Definition ztq_default : str := gen_default_zero_terms_query.
+(* EMust.zero_terms_query, EMustNot.zero_terms_query; <E class>.operation *)
 Definition ztq_of_op (k : eopk) : option str :=
-  match k with EKMust => Some k_all | EKMustNot => Some k_none | EKShould | EKBool => None end.
+  match k with
+  | EKMust => Some gen_EMust_zero_terms_query
+  | EKMustNot => Some gen_EMustNot_zero_terms_query
+  | EKShould | EKBool => None
+  end.
 Definition op_key (k : eopk) : str :=
-  match k with EKMust => k_must | EKShould => k_should | EKMustNot => k_must_not | EKBool => k_bool end.
+  match k with
+  | EKMust => gen_EMust_operation
+  | EKShould => gen_EShould_operation
+  | EKMustNot => gen_EMustNot_operation
+  | EKBool => k_bool
+  end.
 
 Definition is_space (c : char) : bool := in_ranges gen_cc_space c.
 
@@ -329,7 +347,7 @@ Definition leaf_json (cfg : es_config) (l : leaf) : eres json :=
   else
     match leaf_method cfg l with
     | JStr m =>
-        let inner := fold_left (add_key l m) (keys_to_add ++ l_addkeys l) (base_options cfg field) in
+        let inner := fold_left (add_key l m) (class_keys (l_kind l) ++ l_addkeys l) (base_options cfg field) in
         if str_eqb m k_query_string || str_eqb m k_multi_match
         then ROk (JObj [(m, JObj inner)])
         else ROk (JObj [(m, JObj [(field, JObj inner)])])
@@ -492,6 +510,15 @@ Definition degree_of (t : item) : option dec :=
   | _ => None
   end.
 Definition force_of (t : item) : option dec := match t with Boost _ _ f _ => Some f | _ => None end.
+(* ElasticsearchQueryBuilder._range_bound: "-" + bound.a.value for a Prohibit bound, else bound.value;
+   None = AttributeError *)
+Definition range_bound_value (b : item) : option str :=
+  if isinstance (cls_of b) CProhibit then
+    match b with
+    | Unary _ _ a => option_map (fun v => c_minus :: v) (value_of a)
+    | _ => None
+    end
+  else value_of b.
 Definition range_flags (t : item) : option (bool * bool) :=
   match t with Range _ _ _ il ih => Some (il, ih) | _ => None end.
 
@@ -545,12 +572,12 @@ Definition visit_via (cfg : es_config) (env : es_env)
       | BRange =>
           match t with
           | Range _ lo hi il ih =>
-              match value_of lo, value_of hi with
+              match range_bound_value lo, range_bound_value hi with
               | Some vlo, Some vhi =>
                   ROk [ELeaf (mk_range (if il then k_gte else k_gt) vlo
                                        (if ih then k_lte else k_lt) vhi
                                        (ctx_fields cfg cx) (get_name t cx))]
-              | _, _ => RExc (XOther KAttributeError)     (* node.low.value / node.high.value *)
+              | _, _ => RExc (XOther KAttributeError)     (* _range_bound(node.low / node.high) *)
               end
           | _ => RExc (XOther KAttributeError)
           end
